@@ -20,7 +20,8 @@ ANCHORS = ["XMLFileWriter.write_to_file", "XMLFileWriter.write_scenario_to_file"
 REQUIRED = ["event.construct", "event.write", "event.write-scenario", "event.skip", "skip.existing-empty", "skip.existing-bytes", "same-writer-twice",
             "other-writer-constructed-in-between", "other-format-in-between", "identically-constructed-second-writer",
             "reference-read-back-ok", "target.file-of-previous-write.pb", "target.file-of-previous-write.xml",
-            "target.existing-longer-file.pb", "target.existing-longer-file.xml"]
+            "target.existing-longer-file.pb", "target.existing-longer-file.xml", "skip.default-file-name.xml",
+            "skip.default-file-name.pb", "skip.write_scenario_to_file"]
 EXHAUSTIVE = {"quick": "all valid event histories of length <= 3 over 2 writers x 4 configuration pairs",
               "thorough": "all valid event histories of length <= 4 over 2 writers x 8 configuration pairs"}
 ASSUMPTIONS = ["the reference is the output of a fresh writer in a clean child process with the same PYTHONHASHSEED "
@@ -158,16 +159,40 @@ def run(ctx):
                     existing = [b"existing content \x00\x01 must stay", b"", b"\n", b"<?xml version='1.0'?><commonRoad/>",
                                 bytes(range(256)) * 40][skip_n[0] % 5]
                     ctx.feature("skip.existing-" + ["bytes", "empty", "newline", "xml-stub", "10k-binary"][skip_n[0] % 5])
+                    import contextlib
+                    import io as _io
+                    import shutil
+                    default_name = skip_n[0] % 3 == 2
+                    skip_scenario_only = skip_n[0] % 2 == 1
+                    cwd0, wd = os.getcwd(), None
+                    if default_name:
+                        # the file name is left to the writer (<benchmark id> + suffix in the working directory)
+                        wd = os.path.join(tmp, "c15_cwd_%d_%d" % (os.getpid(), len(trace)))
+                        os.makedirs(wd, exist_ok=True)
+                        path = os.path.join(wd, str(sc.scenario_id) + (".xml" if fmt == "xml" else ".pb"))
+                        ctx.feature("skip.default-file-name." + fmt)
                     with open(path, "wb") as f:
                         f.write(existing)
                     os.utime(path, (1000000000, 1000000000))
                     before = (open(path, "rb").read(), os.stat(path).st_mtime_ns)
-                    import contextlib
-                    import io as _io
-                    with contextlib.redirect_stdout(_io.StringIO()):
-                        w.write_to_file(path, OverwriteExistingFile.SKIP)
+                    try:
+                        if default_name:
+                            os.chdir(wd)
+                        with contextlib.redirect_stdout(_io.StringIO()):
+                            if skip_scenario_only and fmt == "pb":
+                                ctx.feature("skip.write_scenario_to_file")
+                                w.write_scenario_to_file(None if default_name else path, OverwriteExistingFile.SKIP)
+                            else:
+                                w.write_to_file(None if default_name else path, OverwriteExistingFile.SKIP)
+                    finally:
+                        os.chdir(cwd0)
                     after = (open(path, "rb").read(), os.stat(path).st_mtime_ns)
                     os.remove(path)
+                    if wd is not None:
+                        others = sorted(os.listdir(wd))
+                        shutil.rmtree(wd, ignore_errors=True)
+                        if others:
+                            ctx.violation("C15/skip-mode-wrote-another-file/" + fmt, repr(others), wit)
                     ctx.evaluation()
                     if before != after:
                         ctx.violation("C15/skip-mode-touched-existing-file/" + fmt,
